@@ -387,6 +387,10 @@ def conv_rule(chk, db):
         chk.unknown_instance("CONV", construct, msg)
 
 
+META_EXTRA = 'CAST / CONV (conversion arithmetic skeleton count*num/den in the common type; kernel selection); ROUND (floor/ceil/round decision tables, sign-robust parity).'
+META = (META[0] + " " + META_EXTRA, META[1])
+
+
 def run(chk, tier):
     quick = tier == "quick"
     db = D.load("checks")
